@@ -394,17 +394,20 @@ func c18Merges(s, c []uint32) [][][2]uint32 {
 }
 
 // c18FlowCases: quick = narrow increment alphabet {1, m/2, m-1}, <=2 increments, <=2 preemptions;
-// thorough = the same scripts with <=3 preemptions, plus the wide alphabet with <=3 increments and <=2 preemptions.
+// thorough = the same scripts with <=4 preemptions, plus (bodies <= 65535) the wide alphabet with <=3 increments and <=3 preemptions.
 func c18FlowCases() []c18FlowCase {
 	if !vreport.Thorough() {
 		return c18FlowCasesFor(false, 2, 2)
 	}
-	cases := c18FlowCasesFor(false, 2, 3)
+	cases := c18FlowCasesFor(false, 2, 4)
 	have := map[string]bool{}
 	for _, c := range cases {
 		have[fmt.Sprint(c.Side, c.Body, c.Window, c.MaxFrame, c.Script)] = true
 	}
-	for _, c := range c18FlowCasesFor(true, 3, 2) {
+	for _, c := range c18FlowCasesFor(true, 3, 3) {
+		if c.Body > c18ConnWindow {
+			continue // bodies beyond the connection window: narrow alphabet only (merges of two wide compositions explode)
+		}
 		if !have[fmt.Sprint(c.Side, c.Body, c.Window, c.MaxFrame, c.Script)] {
 			cases = append(cases, c)
 		}
@@ -540,7 +543,13 @@ func TestVerifC18FlowControl(t *testing.T) {
 		}
 	}
 	p.Note("cases", n)
+	p.Note("cases_all_shards", len(cases))
+	nb := map[int]int{}
+	for _, c := range cases {
+		nb[c.Bound]++
+	}
+	p.Note("cases_by_preemption_bound", fmt.Sprint(nb))
 	p.End(complete, "sides server (MStream.SendResponse) and client (MClientStream.RoundTrip); body {0,1,7,16384,16385,40000,70000} x peer initial window {0,1,5,65535,2^31-1} x max frame size {16384,32768}; peer scripts: compositions of the missing stream / connection window into WINDOW_UPDATE increments, all merges of stream and connection increments, plus insufficient scripts (none, one byte short, addressed to the wrong window), plus mid-flight SETTINGS_INITIAL_WINDOW_SIZE (raise to exactly / one short of the need, mixed with a WINDOW_UPDATE, lower to 0 and raise again); 2 threads (sender, peer); "+
-		map[bool]string{false: "quick: <=2 increments with parts from {1, m/2, m-1}, all interleavings with <=2 preemptions", true: "thorough: <=2 increments with parts from {1, m/2, m-1} and <=3 preemptions, plus <=3 increments with parts from {1, 2, m/2, m-1, 16384, 16385, m-16384} and <=2 preemptions"}[vreport.Thorough()],
+		map[bool]string{false: "quick: <=2 increments with parts from {1, m/2, m-1}, all interleavings with <=2 preemptions", true: "thorough: <=2 increments with parts from {1, m/2, m-1} and <=4 preemptions, plus (bodies <= 65535) <=3 increments with parts from {1, 2, m/2, m-1, 16384, 16385, m-16384} and <=3 preemptions"}[vreport.Thorough()],
 		"every case x every schedule within the preemption bound on the instrumented package; evaluations = executions; distinct = (case, wire+peer event log); the first SETTINGS (initial window, max frame size) is delivered before the stream starts; mid-flight SETTINGS change only the initial window")
 }
